@@ -299,6 +299,9 @@ class ManageSieveConnection:
                 break
             except NotParseable as exc:
                 resp = BadCommandResponse(exc)
+            except (ValueError, RecursionError):
+                # e.g. a number or literal length with too many digits
+                resp = Response(Condition.NO, text='Bad command.')
             else:
                 try:
                     if isinstance(cmd, NoOpCommand):
